@@ -142,6 +142,7 @@ def c02(run):
 @plan('C09')
 def c09(run):
     engine_step(run, 'math', ['C09'])
+    engine_step(run, 'dir', ['C09'])
     run.assumptions += ['references are the textbook index-notation formulas evaluated in __float128']
 
 @plan('C10')
